@@ -13,6 +13,8 @@
 //        -> D gradL_i(5) limL(10) gradR_i(5) limR(10)
 //   ggrad i dxinv L(30) limL(10)              do_ghost_gradient_calculation, reflective
 //        -> E gradL_i(5) limL(10)
+//   slim dx(3) prim(5) grad(15) lim(10)       Hydro::apply_slope_limiter         -> S grad(15)
+//   pred gamma dt prim(5) grad(15) acc(3)     Hydro::predict_primitive_variables -> Q prim(5)
 //   ucons dt cons(5) dcons(5) acc(3) eterm    HydroDensitySubGrid::update_conserved_variables
 //        -> U cons(5) reset=<0|1>
 //   uprim gamma vmax invvol cons(5)           Hydro::set_primitive_variables     -> P prim(5)
@@ -83,7 +85,25 @@ int main() {
     }
     const std::string &op = w[0];
     if (op == "lim" && w.size() == 4) {
-      out << "L " << showF(Hydro::limit(dbl(w[1]), dbl(w[2]), dbl(w[3]), 0.5));
+      const double mid = dbl(w[1]), a = dbl(w[2]), b = dbl(w[3]);
+      const double r = Hydro::limit(mid, a, b, 0.5);
+      out << "L " << showF(r);
+      // the property (Lean: limit_between_lt / _gt, limit_nonneg): the face value never passes 3/4 of
+      // the way to the other cell, undershoots the own cell value by at most |a-b|/2, is the
+      // reconstructed value when that lies in between, and is not negative for non-negative cell values
+      if (std::isfinite(mid) && std::isfinite(a) && std::isfinite(b)) {
+        const double d = std::abs(a - b), slack = 1.e-12 * (std::abs(a) + std::abs(b)) + DBL_MIN;
+        const double toward = a + 0.75 * (b - a);
+        const double away = (a < b) ? a - 0.5 * d : a + 0.5 * d;
+        const double lo = std::min(toward, away), hi = std::max(toward, away);
+        if (!(r >= lo - slack && r <= hi + slack))
+          bad << " face-value-outside-limit-interval";
+        if (a >= 0. && b >= 0. && !(r >= 0.))
+          bad << " negative-face-value-for-nonnegative-cells";
+        const double inner_lo = std::min(a, toward), inner_hi = std::max(a, toward);
+        if (mid >= inner_lo && mid <= inner_hi && a != b && !(std::abs(r - mid) <= slack))
+          bad << " admissible-reconstructed-value-changed";
+      }
     } else if (op == "flux" && w.size() == 66) {
       const double gamma = dbl(w[1]);
       const int i = std::atoi(w[2].c_str());
@@ -244,6 +264,70 @@ int main() {
       }
       if (!other)
         bad << " gradient-call-modified-other-fields";
+    } else if (op == "slim" && w.size() == 34) {
+      // slim dx(3) prim(5) grad(15) lim(10)   Hydro::apply_slope_limiter -> S grad(15)
+      const CoordinateVector<> dxv(dbl(w[1]), dbl(w[2]), dbl(w[3]));
+      HydroVariables h;
+      size_t k = 4;
+      for (int j = 0; j < 5; ++j)
+        h.primitives(j) = dbl(w[k++]);
+      for (int j = 0; j < 5; ++j)
+        for (int c = 0; c < 3; ++c)
+          h.primitive_gradients(j)[c] = dbl(w[k++]);
+      double lim[10];
+      for (int j = 0; j < 10; ++j)
+        lim[j] = dbl(w[k++]);
+      hydro_of(5. / 3., 1.e99).apply_slope_limiter(h, lim, dxv);
+      out << "S";
+      for (int j = 0; j < 5; ++j)
+        for (int c = 0; c < 3; ++c)
+          out << " " << showF(h.primitive_gradients(j)[c]);
+      // the property (Lean: limiter_bounds): with min <= max of the neighbour values, every
+      // extrapolation to a face, grad * dx / 2, is at most half the smaller distance of the cell value
+      // to the neighbour minimum / maximum; in particular inside [min, max] when the cell value is
+      for (int j = 0; j < 5; ++j) {
+        const double W = h.primitives(j), lo = lim[2 * j], hi = lim[2 * j + 1];
+        if (!(lo <= hi))
+          continue;
+        const double bound = 0.5 * std::min(std::abs(hi - W), std::abs(W - lo));
+        const double slack = 1.e-12 * (std::abs(W) + std::abs(lo) + std::abs(hi));
+        for (int c = 0; c < 3; ++c) {
+          const double ext = h.primitive_gradients(j)[c] * 0.5 * dxv[c];
+          if (!(std::abs(ext) <= bound + slack)) {
+            bad << " limited-extrapolation-exceeds-half-distance-to-neighbours variable=" << j;
+            break;
+          }
+          if (lo <= W && W <= hi && !(W + ext >= lo - slack && W + ext <= hi + slack &&
+                                      W - ext >= lo - slack && W - ext <= hi + slack)) {
+            bad << " limited-face-value-outside-neighbour-range variable=" << j;
+            break;
+          }
+        }
+      }
+    } else if (op == "pred" && w.size() == 26) {
+      // pred gamma dt prim(5) grad(15) acc(3)   Hydro::predict_primitive_variables -> Q prim(5)
+      const double gamma = dbl(w[1]), dt = dbl(w[2]);
+      HydroVariables h;
+      size_t k = 3;
+      for (int j = 0; j < 5; ++j)
+        h.primitives(j) = dbl(w[k++]);
+      for (int j = 0; j < 5; ++j)
+        for (int c = 0; c < 3; ++c)
+          h.primitive_gradients(j)[c] = dbl(w[k++]);
+      h.set_gravitational_acceleration(CoordinateVector<>(dbl(w[k]), dbl(w[k + 1]), dbl(w[k + 2])));
+      const double rho0 = h.primitives(0);
+      hydro_of(gamma, 1.e99).predict_primitive_variables(h, dt);
+      out << "Q";
+      for (int j = 0; j < 5; ++j)
+        out << " " << showF(h.primitives(j));
+      // the property: predicted density and pressure are not negative (clamped), nothing is NaN
+      if (rho0 >= 0. && (!(h.primitives(0) >= 0.) || !(h.primitives(4) >= 0.)))
+        bad << " negative-or-nan-predicted-density-pressure";
+      for (int j = 1; j < 4; ++j)
+        if (h.primitives(j) != h.primitives(j)) {
+          bad << " predicted-velocity-nan";
+          break;
+        }
     } else if (op == "ucons" && w.size() == 16) {
       const double dt = dbl(w[1]);
       HydroVariables &h = onecell.hydro_begin().get_hydro_variables();
